@@ -397,7 +397,7 @@ impl Monitor for C20 {
                                 let (a_span, b_span): (Option<(u128, u128)>, Option<(u128, u128)>) = if tick < pos.lower {
                                     (Some((pl, pu)), None)
                                 } else if tick < pos.upper {
-                                    (Some((price.clamp(pl, pu), pu)), Some((pl, price.clamp(pl, pu))))
+                                    (Some((price.max(pl).min(pu), pu)), Some((pl, price.max(pl).min(pu))))
                                 } else {
                                     (None, Some((pl, pu)))
                                 };
